@@ -323,6 +323,12 @@ def run(ctx: Ctx) -> None:
               {"p": ("ref", "nope"), "q": ("expr", "$p + 1", ["p"])},
               {"l": ("lit", [1, 2, 3]), "m": ("ref", "l"), "n": ("ref", "m"), "d": ("idx", "n", 1), "e": ("idx", "m", 2)},
               {"a": ("lit", -3), "b": ("expr", "$a**2", ["a"]), "c": ("expr", "2 - $a", ["a"]), "d": ("expr", "-$a", ["a"])}]
+    # long dependency chains: every link needs the previous one (one pass of the evaluator per link)
+    for n in (30, 101, 130):
+        chain = {"t000": ("lit", 1), "dt": ("lit", 2)}
+        for i in range(1, n):
+            chain[f"t{i:03d}"] = ("expr", f"$t{i - 1:03d} + $dt", [f"t{i - 1:03d}", "dt"])
+        corpus.append(chain)
     for v in corpus:
         for _ in range(3):
             cases.append(mk_case(rng, v)); ctx.corpus_cases += 1
